@@ -39,6 +39,15 @@ type pkgInfo struct {
 	pkg   *types.Package
 }
 
+// sharedLoopVars: the instrumented module's go directive is older than 1.22, i.e. a `for v := range ...` loop has
+// ONE variable v for all iterations (closures and goroutines started in the body share it). The range-over-channel
+// rewrite must keep that.
+var sharedLoopVars bool
+
+// rangeLoopIn remembers, for a block produced by the range-over-channel rewrite, where its loop statement sits
+// (a label of the original loop has to move onto it).
+var rangeLoopIn = map[*ast.BlockStmt]int{}
+
 type instr struct {
 	fset     *token.FileSet
 	info     *types.Info
@@ -79,6 +88,16 @@ func main() {
 	simrtDir := flag.String("simrt", "/verif/simrt", "path of the simrt module")
 	withTests := flag.Bool("tests", false, "also copy _test.go files (transparency self-test)")
 	flag.Parse()
+	if b, err := os.ReadFile(filepath.Join(*src, "go.mod")); err == nil {
+		for _, l := range strings.Split(string(b), "\n") {
+			f := strings.Fields(l)
+			if len(f) == 2 && f[0] == "go" {
+				var maj, min int
+				fmt.Sscanf(f[1], "%d.%d", &maj, &min)
+				sharedLoopVars = maj == 1 && min < 22
+			}
+		}
+	}
 	if *dst == "" {
 		fatal("-dst required")
 	}
@@ -544,6 +563,17 @@ func (in *instr) stmt(s ast.Stmt, withY bool) []ast.Stmt {
 		if idx < 0 {
 			idx = 0
 		}
+		if blk, isBlk := inner[idx].(*ast.BlockStmt); isBlk {
+			if li, ok := rangeLoopIn[blk]; ok {
+				st.Stmt = blk.List[li]
+				blk.List[li] = st
+				res := append([]ast.Stmt{}, inner...)
+				if withY {
+					res = append([]ast.Stmt{in.yStmt(pos, "label")}, res...)
+				}
+				return res
+			}
+		}
 		st.Stmt = inner[idx]
 		res := append([]ast.Stmt{}, inner[:idx]...)
 		res = append(res, st)
@@ -925,6 +955,28 @@ func (in *instr) rangeChan(st *ast.RangeStmt, withY bool) []ast.Stmt {
 	} else {
 		recvLhs = []ast.Expr{ast.NewIdent("_"), ok}
 	}
+	if id, isId := st.Key.(*ast.Ident); sharedLoopVars && st.Key != nil && isId && id.Name != "_" {
+		// { ch := X; v := simrt.ZeroOfChan(ch); for { tk := B; rv, ok := <-ch; U(tk); if !ok { break }; v = rv; body } }
+		tv := in.tmp("rv")
+		in.block(st.Body)
+		body := []ast.Stmt{
+			&ast.AssignStmt{Lhs: []ast.Expr{tk}, Tok: token.DEFINE, Rhs: []ast.Expr{simCall("B", in.site(pos, "range-recv"))}},
+			&ast.AssignStmt{Lhs: []ast.Expr{tv, ok}, Tok: token.DEFINE, Rhs: []ast.Expr{&ast.UnaryExpr{Op: token.ARROW, X: ch}}},
+			&ast.ExprStmt{X: simCall("U", tk)},
+			&ast.IfStmt{Cond: &ast.UnaryExpr{Op: token.NOT, X: ok}, Body: &ast.BlockStmt{List: []ast.Stmt{&ast.BranchStmt{Tok: token.BREAK}}}},
+			&ast.AssignStmt{Lhs: []ast.Expr{ast.NewIdent(id.Name)}, Tok: token.ASSIGN, Rhs: []ast.Expr{tv}},
+		}
+		body = append(body, st.Body.List...)
+		loop := &ast.ForStmt{Body: &ast.BlockStmt{List: body}}
+		blk := &ast.BlockStmt{List: []ast.Stmt{
+			&ast.AssignStmt{Lhs: []ast.Expr{ch}, Tok: token.DEFINE, Rhs: []ast.Expr{st.X}},
+			&ast.AssignStmt{Lhs: []ast.Expr{ast.NewIdent(id.Name)}, Tok: token.DEFINE, Rhs: []ast.Expr{simCall("ZeroOfChan", ch)}},
+			&ast.AssignStmt{Lhs: []ast.Expr{ast.NewIdent("_")}, Tok: token.ASSIGN, Rhs: []ast.Expr{ast.NewIdent(id.Name)}},
+			loop,
+		}}
+		rangeLoopIn[blk] = 3
+		return in.withY(withY, pos, "for", blk)
+	}
 	in.block(st.Body)
 	body := []ast.Stmt{
 		&ast.AssignStmt{Lhs: []ast.Expr{tk}, Tok: token.DEFINE, Rhs: []ast.Expr{simCall("B", in.site(pos, "range-recv"))}},
@@ -951,81 +1003,200 @@ func unparen(e ast.Expr) ast.Expr {
 	}
 }
 
-// selectStmt rewrites a select statement.
+// selectStmt rewrites a select statement so that the simulator, not the Go runtime, decides which of several
+// ready cases is taken (the runtime picks pseudo-randomly, which would not replay):
+//
+//	<operands hoisted into temporaries, evaluated once, in source order>
+//	tk := simrt.B(site)                      // yield point before the operation
+//	<fresh timers are created here, after the yield point>
+//	_v0 := simrt.ZeroOfChan(c0); _ok0 := false   // one pair per receive case
+//	_sel := -1
+//	_st := simrt.SelStart(site, n)           // tape: which case is polled first (0 outside a simulation)
+//	for _p := 0; _p < n && _sel < 0; _p++ {
+//		switch (_st + _p) % n {
+//		case 0: select { case _v0, _ok0 = <-c0: _sel = 0; default: }
+//		case 1: select { case c1 <- x1: _sel = 1; default: }
+//		}
+//	}
+//	if _sel < 0 { select { case _v0, _ok0 = <-c0: _sel = 0; case c1 <- x1: _sel = 1; [default: _sel = n] } }
+//	simrt.U(tk)                              // post-operation gate
+//	switch _sel { case 0: v, ok := _v0, _ok0; body0  case 1: body1  case n: default body }
+//
+// Every behaviour of the rewritten statement is a behaviour of the original (any ready case may be chosen; if
+// none is ready the original blocking select runs). `break` inside a clause body leaves the switch as it left
+// the select.
 func (in *instr) selectStmt(st *ast.SelectStmt, withY bool) []ast.Stmt {
 	pos := st.Pos()
 	var pre, preTimers []ast.Stmt
 	hoist := func(e ast.Expr) ast.Expr {
 		in.exprs(e)
-		if !containsCall(e) {
-			return e
+		if tv, ok := in.info.Types[e]; ok && (tv.Value != nil || tv.IsNil()) {
+			return e // constants and nil keep their untyped form
 		}
 		t := in.tmp("c")
 		as := &ast.AssignStmt{Lhs: []ast.Expr{t}, Tok: token.DEFINE, Rhs: []ast.Expr{e}}
-		if in.isTimeCall(e) {
+		if containsCall(e) && in.isTimeCall(e) {
 			// a fresh timer must be created after the yield point of B: otherwise virtual time could
-			// pass between its creation and the select, and a select with several ready cases is
-			// resolved pseudo-randomly by the runtime (not replayable)
+			// pass between its creation and the select
 			preTimers = append(preTimers, as)
 		} else {
 			pre = append(pre, as)
 		}
 		return t
 	}
-	hoistRecv := func(e ast.Expr) {
-		u, ok := unparen(e).(*ast.UnaryExpr)
-		if !ok || u.Op != token.ARROW {
-			in.errorf(e.Pos(), "unexpected select receive form")
-			return
-		}
-		u.X = hoist(u.X)
+	if len(st.Body.List) == 0 {
+		pre = append(pre, &ast.ExprStmt{X: simCall("B", in.site(pos, "select"))})
+		return in.withYown(pre, st)
 	}
+	type selCase struct {
+		cc      *ast.CommClause
+		send    *ast.SendStmt // send case
+		ch      ast.Expr      // receive case: hoisted channel
+		v, ok   *ast.Ident    // receive temporaries
+		lhs     []ast.Expr    // original left-hand side of a receive (nil: value discarded)
+		define  bool
+		isDeflt bool
+	}
+	var cases []*selCase
+	hasSend, hasDefault := false, false
 	for _, c := range st.Body.List {
 		cc := c.(*ast.CommClause)
+		sc := &selCase{cc: cc}
+		recv := func(e ast.Expr) {
+			u, ok := unparen(e).(*ast.UnaryExpr)
+			if !ok || u.Op != token.ARROW {
+				in.errorf(e.Pos(), "unexpected select receive form")
+				return
+			}
+			sc.ch = hoist(u.X)
+		}
 		switch comm := cc.Comm.(type) {
 		case nil:
+			sc.isDeflt = true
+			hasDefault = true
 		case *ast.SendStmt:
 			comm.Chan = hoist(comm.Chan)
 			comm.Value = hoist(comm.Value)
+			sc.send = comm
+			hasSend = true
 		case *ast.ExprStmt:
-			hoistRecv(comm.X)
+			recv(comm.X)
 		case *ast.AssignStmt:
 			if len(comm.Rhs) != 1 {
 				in.errorf(comm.Pos(), "unexpected select assignment form")
 				continue
 			}
-			hoistRecv(comm.Rhs[0])
+			recv(comm.Rhs[0])
+			sc.lhs = comm.Lhs
+			sc.define = comm.Tok == token.DEFINE
+			if !sc.define {
+				for _, l := range comm.Lhs {
+					in.exprs(l)
+				}
+			}
 		default:
 			in.errorf(cc.Pos(), "unexpected select comm %T", comm)
 		}
+		cases = append(cases, sc)
 	}
-	if len(st.Body.List) == 0 {
-		pre = append(pre, &ast.ExprStmt{X: simCall("B", in.site(pos, "select"))})
-		return in.withYown(pre, st)
-	}
+	site := in.site(pos, "select")
 	tk := in.tmp("tk")
-	pre = append(pre, &ast.AssignStmt{Lhs: []ast.Expr{tk}, Tok: token.DEFINE, Rhs: []ast.Expr{simCall("B", in.site(pos, "select"))}})
-	hasSend, hasDefault := false, false
-	for _, c := range st.Body.List {
-		cc := c.(*ast.CommClause)
-		if cc.Comm == nil {
-			hasDefault = true
-		}
-		if _, ok := cc.Comm.(*ast.SendStmt); ok {
-			hasSend = true
-		}
-	}
+	pre = append(pre, &ast.AssignStmt{Lhs: []ast.Expr{tk}, Tok: token.DEFINE, Rhs: []ast.Expr{simCall("B", site)}})
 	if hasSend && !hasDefault {
 		// a blocked send case panics when its channel gets closed, skipping the clause bodies
 		pre = append(pre, &ast.DeferStmt{Call: simCall("UP", tk)})
 	}
 	pre = append(pre, preTimers...)
-	for _, c := range st.Body.List {
-		cc := c.(*ast.CommClause)
-		body := in.list(cc.Body)
-		cc.Body = append([]ast.Stmt{&ast.ExprStmt{X: simCall("U", tk)}}, body...)
+	sel := in.tmp("sel")
+	n := 0
+	for _, sc := range cases {
+		if sc.isDeflt {
+			continue
+		}
+		n++
+		if sc.ch != nil {
+			sc.v, sc.ok = in.tmp("v"), in.tmp("ok")
+			pre = append(pre,
+				&ast.AssignStmt{Lhs: []ast.Expr{sc.v}, Tok: token.DEFINE, Rhs: []ast.Expr{simCall("ZeroOfChan", sc.ch)}},
+				&ast.AssignStmt{Lhs: []ast.Expr{sc.ok}, Tok: token.DEFINE, Rhs: []ast.Expr{ast.NewIdent("false")}},
+				&ast.AssignStmt{Lhs: []ast.Expr{ast.NewIdent("_"), ast.NewIdent("_")}, Tok: token.ASSIGN, Rhs: []ast.Expr{sc.v, sc.ok}})
+		}
 	}
-	return in.withYown(pre, st)
+	intLit := func(i int) ast.Expr { return &ast.BasicLit{Kind: token.INT, Value: fmt.Sprint(i)} }
+	pre = append(pre, &ast.AssignStmt{Lhs: []ast.Expr{sel}, Tok: token.DEFINE, Rhs: []ast.Expr{&ast.UnaryExpr{Op: token.SUB, X: intLit(1)}}})
+	// the communication of case i with `_sel = i` as its body
+	commOf := func(sc *selCase, idx int) *ast.CommClause {
+		var comm ast.Stmt
+		if sc.send != nil {
+			comm = &ast.SendStmt{Chan: sc.send.Chan, Value: sc.send.Value}
+		} else {
+			comm = &ast.AssignStmt{Lhs: []ast.Expr{sc.v, sc.ok}, Tok: token.ASSIGN, Rhs: []ast.Expr{&ast.UnaryExpr{Op: token.ARROW, X: sc.ch}}}
+		}
+		return &ast.CommClause{Comm: comm, Body: []ast.Stmt{&ast.AssignStmt{Lhs: []ast.Expr{sel}, Tok: token.ASSIGN, Rhs: []ast.Expr{intLit(idx)}}}}
+	}
+	if n >= 1 {
+		stv, pv := in.tmp("st"), in.tmp("p")
+		pre = append(pre, &ast.AssignStmt{Lhs: []ast.Expr{stv}, Tok: token.DEFINE, Rhs: []ast.Expr{simCall("SelStart", site, intLit(n))}})
+		var pollCases []ast.Stmt
+		idx := 0
+		for _, sc := range cases {
+			if sc.isDeflt {
+				continue
+			}
+			poll := &ast.SelectStmt{Body: &ast.BlockStmt{List: []ast.Stmt{commOf(sc, idx), &ast.CommClause{}}}}
+			pollCases = append(pollCases, &ast.CaseClause{List: []ast.Expr{intLit(idx)}, Body: []ast.Stmt{poll}})
+			idx++
+		}
+		loop := &ast.ForStmt{
+			Init: &ast.AssignStmt{Lhs: []ast.Expr{pv}, Tok: token.DEFINE, Rhs: []ast.Expr{intLit(0)}},
+			Cond: &ast.BinaryExpr{X: &ast.BinaryExpr{X: pv, Op: token.LSS, Y: intLit(n)}, Op: token.LAND, Y: &ast.BinaryExpr{X: sel, Op: token.LSS, Y: intLit(0)}},
+			Post: &ast.IncDecStmt{X: pv, Tok: token.INC},
+			Body: &ast.BlockStmt{List: []ast.Stmt{&ast.SwitchStmt{
+				Tag:  &ast.BinaryExpr{X: &ast.ParenExpr{X: &ast.BinaryExpr{X: stv, Op: token.ADD, Y: pv}}, Op: token.REM, Y: intLit(n)},
+				Body: &ast.BlockStmt{List: pollCases},
+			}}},
+		}
+		pre = append(pre, loop)
+	}
+	// nothing was ready: the original (blocking, or default) select
+	var blocking []ast.Stmt
+	idx := 0
+	for _, sc := range cases {
+		if sc.isDeflt {
+			blocking = append(blocking, &ast.CommClause{Body: []ast.Stmt{&ast.AssignStmt{Lhs: []ast.Expr{sel}, Tok: token.ASSIGN, Rhs: []ast.Expr{intLit(n)}}}})
+			continue
+		}
+		blocking = append(blocking, commOf(sc, idx))
+		idx++
+	}
+	pre = append(pre, &ast.IfStmt{Cond: &ast.BinaryExpr{X: sel, Op: token.LSS, Y: intLit(0)},
+		Body: &ast.BlockStmt{List: []ast.Stmt{&ast.SelectStmt{Body: &ast.BlockStmt{List: blocking}}}}})
+	pre = append(pre, &ast.ExprStmt{X: simCall("U", tk)})
+	// the clause bodies
+	var bodies []ast.Stmt
+	idx = 0
+	for _, sc := range cases {
+		body := in.list(sc.cc.Body)
+		var head []ast.Stmt
+		k := n
+		if !sc.isDeflt {
+			k = idx
+			idx++
+			if len(sc.lhs) > 0 {
+				rhs := []ast.Expr{sc.v, sc.ok}[:len(sc.lhs)]
+				tok := token.ASSIGN
+				if sc.define {
+					tok = token.DEFINE
+				}
+				head = append(head, &ast.AssignStmt{Lhs: sc.lhs, Tok: tok, Rhs: rhs})
+			}
+		}
+		bodies = append(bodies, &ast.CaseClause{List: []ast.Expr{intLit(k)}, Body: append(head, body...)})
+	}
+	// (a default clause ending in panic keeps the statement "terminating" where the select was)
+	bodies = append(bodies, &ast.CaseClause{Body: []ast.Stmt{&ast.ExprStmt{X: &ast.CallExpr{Fun: ast.NewIdent("panic"), Args: []ast.Expr{&ast.BasicLit{Kind: token.STRING, Value: `"simrt: unreachable select outcome"`}}}}}})
+	main := &ast.SwitchStmt{Tag: sel, Body: &ast.BlockStmt{List: bodies}}
+	return in.withYown(pre, main)
 }
 
 func (in *instr) withYown(pre []ast.Stmt, main ast.Stmt) []ast.Stmt {
